@@ -16,7 +16,7 @@ static const char *kern_name[] = {"MT_MatrixDVectorDotProduct", "MT_DVectorMatri
 struct Ctx {
   const Plan *p;
   Outcome *o;
-  int kern, rows, cols, threads, other;
+  int kern, rows, cols, threads, other; bool alias = false;
   Mat A, B;
   std::vector<double> v;
   // results
@@ -52,7 +52,8 @@ static void call_kernel(void *arg) {
       break;
     }
     case K_DIST_E: case K_DIST_SE: case K_DIST_M: case K_DIST_C: {
-      matrix *m1 = to_matrix(c.A, c.cols), *m2 = to_matrix(c.B, c.cols), *d; initMatrix(&d);
+      // the usual call is pairwise distances WITHIN one set: the very same matrix object for both operands (plan key alias=1)
+      matrix *m1 = to_matrix(c.A, c.cols), *m2 = c.alias ? m1 : to_matrix(c.B, c.cols), *d; initMatrix(&d);
       if (mt) CalculateDistance(m1, m2, d, nth, method_of(c.kern));
       else switch (c.kern) {
         case K_DIST_E: EuclideanDistance_ST(m1, m2, d); break;
@@ -61,7 +62,7 @@ static void call_kernel(void *arg) {
         default: CosineDistance_ST(m1, m2, d); break;
       }
       (mt ? c.got_m : c.ref_m) = from_matrix(d);
-      DelMatrix(&d); DelMatrix(&m1); DelMatrix(&m2);
+      DelMatrix(&d); if (m2 != m1) DelMatrix(&m2); DelMatrix(&m1);
       break;
     }
     case K_COND_E: case K_COND_SE: case K_COND_M: case K_COND_C: {
@@ -170,6 +171,7 @@ struct HMt : Harness {
     p.seti("kern", kern); p.seti("rows", rows); p.seti("cols", cols); p.seti("threads", threads);
     int other = 1;
     if (kern >= K_DIST_E && kern <= K_DIST_C) other = (int)wr.range(1, large ? 40 : 8);          // rows of m2
+    if (kern >= K_DIST_E && kern <= K_DIST_C && (p.get("mode") == "value" ? wr.chance(0.4) : (idx / GRID_SIZE) % 2 == 1)) p.seti("alias", 1);   // grid: the second pass (permuted workers) uses one matrix for both operands
     if (kern == K_KMEANS || kern == K_KMPP) other = (int)wr.range(1, 6);             // clusters
     if (kern == K_MDC || kern == K_MAXDIS || kern == K_MAXDISF) other = (int)wr.range(1, rows > 1 ? rows : 1);  // selection size
     if (p.get("mode") == "grid" && (kern == K_MDC || kern == K_MAXDIS || kern == K_MAXDISF) && other > 4) other = 1 + other % 4;  // the slicing logic under test does not depend on the selection size
@@ -194,6 +196,8 @@ struct HMt : Harness {
     }
     c.A = random_mat(dr, c.rows, c.cols);
     if (c.kern >= K_DIST_E && c.kern <= K_DIST_C) c.B = random_mat(dr, c.other, c.cols);
+    c.alias = c.kern >= K_DIST_E && c.kern <= K_DIST_C && p.geti("alias", 0) != 0;
+    if (c.alias) { c.B = c.A; o.counters["probe.same_matrix_for_both_operands"]++; }
     if (c.kern == K_MTMV) { c.v.resize(c.cols); for (double &x : c.v) x = dr.uniform(-10, 10); }
     if (c.kern == K_MTVM) { c.v.resize(c.rows); for (double &x : c.v) x = dr.uniform(-10, 10); }
     if (selection) {  // general position: distinct well separated points, positive coordinates for cosine
